@@ -262,7 +262,10 @@ func (progBldr *ProgBuilder) Deref() {
 			ctx.res.runErr = err
 			return
 		}
-		ctx.actualPathStack.PushPath(lrefentry.GetSdcpbPath())
+		// The steps and keys that follow deref() are appended to the path
+		// on the stack: work on a copy, the path object belongs to the
+		// data tree (which may hand out the same object again).
+		ctx.actualPathStack.PushPath(lrefentry.GetSdcpbPath().DeepCopy())
 	}
 
 	progBldr.CodeFn(derefFunc, "deref")
